@@ -203,6 +203,31 @@ def run(tier):
                (W[0], ('m', 70, '250000'), dict(year=y)), (W[2], ('m', '11K'), dict(year=y)), (W[2], ('f', '6200'), dict(year=y)), (W[2], ('m', '1609'), dict(year=y)),
                (W[1], ('m', 50, '8046', 1700.0), dict(year=y))]
     orderpass.part(rep, oc, 'interpolation call-order pass')
+    # sequences on one grader: a tabulated running event, then an untabulated distance (a look-up that starts from where the previous one ended would
+    # bracket with the wrong rows): every tabulated running row and ~40 untabulated distances across the axis, all ordered pairs, per year
+    G14 = c14.setup()
+    U_ = common.mod('athlib.utils')
+    for y in (2015, 2023):
+        tab = []
+        for r in G14['tab'][y]['m']:
+            try:
+                d = U_.get_distance(r[0])
+            except Exception:
+                d = None
+            if d and not G14['codes'].PAT_FIELD.match(r[0]) and not r[0].upper().endswith(('H', 'W', 'SC')):
+                tab.append((d, r[0]))
+        tab.sort()
+        ds = sorted({d for d, _ in tab})
+        unt = []
+        for a, b in zip(ds, ds[1:]):
+            if b - a > 4:
+                unt += [str(a + 2), str((a + b) // 2)]
+        unt += ['7K', '9K', '5.9M', '7.25K', '11K']
+        unt = [u for u in dict.fromkeys(unt) if u not in {c for _, c in tab}][:44]
+        oc2 = [(W[0], ('m', 50, c), dict(year=y)) for _, c in tab] + [(W[0], ('m', 50, u), dict(year=y)) for u in unt]
+        orderpass.part(rep, oc2, 'tabulated event then untabulated distance, factor, table year %d' % y, conventions=False)
+        oc3 = [(W[2], ('f', c), dict(year=y)) for _, c in tab[::2]] + [(W[2], ('f', u), dict(year=y)) for u in unt[::2]]
+        orderpass.part(rep, oc3, 'tabulated event then untabulated distance, best, table year %d' % y, conventions=False)
     crossapi.part(rep, PID, tier)
     return rep.finish()
 
